@@ -202,9 +202,14 @@ def judgeParse (inp obs : Json) : Except String Verdict := do
   let oMask := getNatD obs "mask"
   let ascii := evs.all isAscii
   let mdl := Events.parse (evs.map S)
-  let agree := match mdl with
+  -- `MustParseEventMask` is `ParseEventMask` with the error turned into a panic (absent in replays
+  -- recorded before it was observed)
+  let mustOk := match getOpt obs "must_panic" with
+    | none => true
+    | some _ => getBoolD obs "must_panic" == oErr && (oErr || getNatD obs "must_mask" == oMask)
+  let agree := (match mdl with
     | some r => !oErr && r.toNat == oMask
-    | none => oErr
+    | none => oErr) && mustOk
   -- no property clause speaks about arbitrary strings; the only direct requirement: a
   -- successful parse yields valid events only
   let spec := oErr || (BitVec.ofNat 32 oMask &&& ~~~Events.valid) == 0#32
@@ -213,7 +218,8 @@ def judgeParse (inp obs : Json) : Except String Verdict := do
                                 else if agree then "C14:parse:non-ascii:accepted-by-go-and-model"
                                 else "C14:parse:non-ascii:accepted-by-go-only")
                 else if spec then "" else "C14:parse:invalid-bits",
-         why := if agree then "" else s!"ParseEventMask{evs}: model {mdl.map (·.toNat)} impl err={oErr} mask={oMask}",
+         why := if agree then "" else if !mustOk then s!"MustParseEventMask{evs} does not behave as ParseEventMask with the error turned into a panic (err={oErr} mask={oMask})"
+                else s!"ParseEventMask{evs}: model {mdl.map (·.toNat)} impl err={oErr} mask={oMask}",
          cover := ["parse", if oErr then "parse:error" else "parse:ok"], nontrivial := !oErr && oMask != 0 }
 
 def judgeBits (inp obs : Json) : Except String Verdict := do
